@@ -413,3 +413,287 @@ func checkLexListClosure(c *Ctx, p *Prog, rule string) {
 		}()), p.FnPos(fn))
 	}
 }
+
+// dependentsClosure, inner step: how a moved item of a regular definition R calls on the items of the
+// state that wait for R (doc.go, set.Next: "for R : •z in nextSet and I : x •R y in set: add I : x •R y";
+// "for R : z• in nextSet and I : x •R y in set: add I : x R• y").
+func checkLexDependents(c *Ctx, p *Prog, rule string) {
+	fn := p.Func(lexItemsPkg, "*ItemSet.dependentsClosure")
+	if fn == nil {
+		c.Undecided(rule, "lexer ItemSet.dependentsClosure", "function not found")
+		return
+	}
+	hs := loopHeaders(fn)
+	if len(hs) != 2 {
+		c.Undecided(rule, "lexer ItemSet.dependentsClosure", fmt.Sprintf("expected two loops (moved items, items of the state), found %d", len(hs)), p.FnPos(fn))
+		return
+	}
+	for _, wd := range []struct {
+		name                  string
+		waiting, same, reduce bool
+		want                  string
+	}{
+		{"state item is complete", false, false, false, "ACC"},
+		{"state item waits for something else", true, false, false, "ACC"},
+		{"state item waits for R, R still in progress", true, true, false, "(ACC + [&*this.Items[k+1]])"},
+		{"state item waits for R, R complete", true, true, true, "(ACC + [MoveRegDefId(&*this.Items[k+1],RID)])"},
+	} {
+		sm := map[string]Summary{
+			"*.ExpectedSymbol": func(r *Run, cc *ssa.CallCommon, args []Val) (Val, error) {
+				if !wd.waiting {
+					return VIface{}, nil
+				}
+				return VIface{Dyn: types.NewPointer(astType(p, "LexRegDefId")), V: VPtr{r.NewObj("RD", false), ""}}, nil
+			},
+			"invoke:String": func(r *Run, cc *ssa.CallCommon, args []Val) (Val, error) { return VOpq{"EXPNAME"}, nil },
+			"*.String":      func(r *Run, cc *ssa.CallCommon, args []Val) (Val, error) { return VOpq{"EXPNAME"}, nil },
+			"*.Reduce":      func(r *Run, cc *ssa.CallCommon, args []Val) (Val, error) { return boolConst(wd.reduce), nil },
+			"*.MoveRegDefId": func(r *Run, cc *ssa.CallCommon, args []Val) (Val, error) {
+				return VOpq{"MoveRegDefId(" + render(args[0]) + "," + render(args[1]) + ")"}, nil
+			},
+			"*.AddNoDuplicate": func(r *Run, cc *ssa.CallCommon, args []Val) (Val, error) {
+				b := render(args[1])
+				if el := r.VarargElems(args[1]); len(el) > 0 {
+					b = "[" + strings.Join(el, ",") + "]"
+				}
+				return VOpq{"(" + render(args[0]) + " + " + b + ")"}, nil
+			},
+		}
+		other := "q"
+		if wd.same {
+			other = "r"
+		}
+		reg := &Region{Fn: fn, Start: hs[1], Cuts: cutSet(hs...), Summaries: sm, PreWorld: lenWorld(2, nil),
+			PhiInputs: map[string]Val{"items": VSlice{Name: "ACC", Len: VSym{Name: "NACC"}}, "rangeindex": VSym{Name: "k"}},
+			Lazy: func(o *Obj, path string, t types.Type) Val {
+				if strings.HasSuffix(path, ".Id") && !strings.Contains(o.Name, "RD") {
+					return VOpq{"RID"}
+				}
+				return nil
+			}}
+		out := InterpretSafe(reg, &MapWorld{Ints: map[string]int64{"k": 0, "NACC": 3}, Strs: map[string]string{"EXPNAME": "r", "RID": other}, IntFn: func(s string) (int64, bool) { return 3, strings.HasPrefix(s, "len(") }})
+		got := out.NextPhi["items"]
+		stepOb(c, out, rule, "lexer dependentsClosure step: "+wd.name, termOf(out) == "cut" && out.CutBlock == hs[1] && got == wd.want, fmt.Sprintf("%s next items = %s %s; required %s", termOf(out), got, out.Undecided, wd.want), p.FnPos(fn))
+	}
+}
+
+// R01.8: the ε-moves of an item, helper by helper, against the table in the comment of Item.Emoves.
+func checkLexEmoves(c *Ctx, p *Prog, rule string) {
+	posOps := func(level int64) map[string]Summary {
+		return map[string]Summary{
+			"*.Clone":      func(r *Run, cc *ssa.CallCommon, args []Val) (Val, error) { r.Event("clone"); return VPtr{r.NewObj("POST", false), ""}, nil },
+			"*.pop":        callEvent("pop", func(r *Run, args []Val) Val { return VTuple{VOpq{"popped"}, VSym{Name: "poppedpos"}} }),
+			"*.inc":        callEvent("inc", nil),
+			"*.push":       callEvent("push", nil),
+			"*.setPos":     callEvent("setPos", nil),
+			"*.setToEnd":   callEvent("setToEnd", nil),
+			"*.getHashKey": callEvent("hash", nil),
+			"*.level":      func(r *Run, cc *ssa.CallCommon, args []Val) (Val, error) { return intConst(level), nil },
+			"*.Len":        func(r *Run, cc *ssa.CallCommon, args []Val) (Val, error) { return VSym{Name: "LEN(" + render(args[0]) + ")"}, nil },
+			"invoke:Len":   func(r *Run, cc *ssa.CallCommon, args []Val) (Val, error) { return VSym{Name: "LEN"}, nil },
+			"*.newLexPatternBasicItems": func(r *Run, cc *ssa.CallCommon, args []Val) (Val, error) {
+				return VOpq{"basic(" + render(args[1]) + "," + render(args[2]) + ")"}, nil
+			},
+			"builtin:append": func(r *Run, cc *ssa.CallCommon, args []Val) (Val, error) {
+				b := render(args[1])
+				if el := r.VarargElems(args[1]); len(el) > 0 {
+					b = "[" + strings.Join(el, ",") + "]"
+				}
+				return VOpq{"(" + render(args[0]) + " ++ " + b + ")"}, nil
+			},
+		}
+	}
+	type tc struct {
+		fn, name   string
+		pos, level int64
+		want       string
+	}
+	post := "clone; pop(&*POST.pos); inc(&*POST.pos); hash(&POST)"
+	for _, t := range []tc{
+		{"*Item.eMovesGroupPattern", "dot in front of the group", 0, 1, "|return basic(&*nt.LexPattern,0)"},
+		{"*Item.eMovesGroupPattern", "an alternative of the group is complete", 1, 1, post + "|return &new:slicelit[:]|new:slicelit[0]=*items.Item(&POST)"},
+		{"*Item.eMovesOptPattern", "dot in front of the option", 0, 1, post + "|return ((nil ++ [basic(&*nt.LexPattern,0)]) ++ [*items.Item(&POST)])"},
+		{"*Item.eMovesOptPattern", "the option's body is complete", 1, 1, post + "|return (nil ++ [*items.Item(&POST)])"},
+		{"*Item.eMovesRepPattern", "dot in front of the repetition", 0, 1, post + "|return ((nil ++ [basic(&*nt.LexPattern,0)]) ++ [*items.Item(&POST)])"},
+		{"*Item.eMovesRepPattern", "the repetition's body is complete", 1, 1, post + "|return ((nil ++ [basic(&*nt.LexPattern,1)]) ++ [*items.Item(&POST)])"},
+		{"*Item.eMovesLexPattern", "dot in front of the pattern", 0, 0, "|return basic(&nt,0)"},
+		{"*Item.eMovesLexPattern", "an alternative of the whole pattern is complete", 1, 0, "clone; hash(&POST)|return &new:slicelit[:]|*POST.pos.stack[0].pos=LEN(&nt); new:slicelit[0]=*items.Item(&POST)"},
+		{"*Item.eMovesLexPattern", "an alternative of a nested pattern is complete", 1, 2, post + "|return &new:slicelit[:]|new:slicelit[0]=*items.Item(&POST)"},
+	} {
+		fn := p.Func(lexItemsPkg, t.fn)
+		if fn == nil {
+			c.Undecided(rule, "lexer "+t.fn, "function not found")
+			continue
+		}
+		reg := &Region{Fn: fn, Summaries: posOps(t.level), Params: map[string]Val{"pos": intConst(t.pos)}}
+		out := InterpretSafe(reg, &MapWorld{})
+		got := evs(out) + "|" + termOf(out)
+		got = strings.ReplaceAll(got, "; store ", "; ")
+		// events also list stores; keep the position operations only
+		var ops []string
+		for _, e := range out.Events {
+			if !strings.HasPrefix(e, "store ") {
+				ops = append(ops, e)
+			}
+		}
+		got = strings.Join(ops, "; ") + "|" + termOf(out)
+		if st := storesOf(out); st != "" {
+			got += "|" + st
+		}
+		stepOb(c, out, rule, "lexer "+t.fn+": "+t.name, got == t.want, fmt.Sprintf("got %s %s; required %s", got, out.Undecided, t.want), p.FnPos(fn))
+	}
+
+	// eMovesLexAlt: end of the alternative / next term is a terminal / next term is a bracketed pattern
+	if fn := p.Func(lexItemsPkg, "*Item.eMovesLexAlt"); fn == nil {
+		c.Undecided(rule, "lexer Item.eMovesLexAlt", "function not found")
+	} else {
+		for _, wd := range []struct {
+			name     string
+			pos, n   int64
+			terminal bool
+			want     string
+		}{
+			{"all terms of the alternative are behind the dot", 2, 2, false, "clone; pop(&*POST.pos); setToEnd(&*POST.pos); hash(&POST)|return &POST"},
+			{"next term is a terminal", 1, 2, true, "|return &this"},
+			{"next term is a bracketed pattern", 1, 2, false, "clone; push(&*POST.pos,TERM,0); hash(&POST)|return &POST"},
+		} {
+			sm := posOps(1)
+			sm["invoke:LexTerminal"] = func(r *Run, cc *ssa.CallCommon, args []Val) (Val, error) { return boolConst(wd.terminal), nil }
+			sm["*.LexTerminal"] = sm["invoke:LexTerminal"]
+			reg := &Region{Fn: fn, Summaries: sm, Params: map[string]Val{"pos": intConst(wd.pos)},
+				Lazy: func(o *Obj, path string, t types.Type) Val {
+					if strings.HasSuffix(o.Name, ".Terms") {
+						return VIface{Dyn: types.NewPointer(astType(p, "LexGroupPattern")), V: VOpq{"TERM"}}
+					}
+					return nil
+				}}
+			out := InterpretSafe(reg, &MapWorld{IntFn: func(s string) (int64, bool) { return wd.n, strings.HasPrefix(s, "len(") }})
+			var ops []string
+			for _, e := range out.Events {
+				if !strings.HasPrefix(e, "store ") {
+					ops = append(ops, e)
+				}
+			}
+			got := strings.Join(ops, "; ") + "|" + termOf(out)
+			got = strings.ReplaceAll(got, "*ast.LexGroupPattern(TERM)", "TERM")
+			stepOb(c, out, rule, "lexer Item.eMovesLexAlt: "+wd.name, got == wd.want, fmt.Sprintf("got %s %s; required %s", got, out.Undecided, wd.want), p.FnPos(fn))
+		}
+	}
+	// newLexPatternBasicItems: one item per alternative, dot at its start
+	if fn := p.Func(lexItemsPkg, "*Item.newLexPatternBasicItems"); fn != nil {
+		if hs := loopHeaders(fn); len(hs) == 1 {
+			reg := &Region{Fn: fn, Start: hs[0], Cuts: cutSet(hs[0]), Summaries: posOps(1), PreWorld: lenWorld(3, nil), PhiInputs: map[string]Val{"rangeindex": VSym{Name: "k"}}}
+			out := InterpretSafe(reg, lenWorld(3, map[string]int64{"k": 0}))
+			var ops []string
+			for _, e := range out.Events {
+				if !strings.HasPrefix(e, "store ") {
+					ops = append(ops, e)
+				}
+			}
+			got := strings.Join(ops, "; ") + "|" + storesOf(out)
+			got = strings.ReplaceAll(strings.ReplaceAll(got, "*ast.LexAlt(&*nt.Alternatives[k+1])", "ALT"), "[]interface{}", "[]any")
+			want := "clone; setPos(&*POST.pos,k+1); push(&*POST.pos,ALT,0); hash(&POST)|make([]any,len(nt.Alternatives))[k+1]=*items.Item(&POST)"
+			stepOb(c, out, rule, "lexer Item.newLexPatternBasicItems step", termOf(out) == "cut" && got == want, fmt.Sprintf("%s got %s %s; required %s", termOf(out), got, out.Undecided, want), p.FnPos(fn))
+		}
+	}
+	// Item.Move: nothing unless the class lies inside the expected symbol; else the ε-moves of the item with the dot one further
+	if fn := p.Func(lexItemsPkg, "*Item.Move"); fn != nil {
+		for _, match := range []bool{true, false} {
+			sm := posOps(1)
+			sm["*.match"] = func(r *Run, cc *ssa.CallCommon, args []Val) (Val, error) { return boolConst(match), nil }
+			sm["*.Emoves"] = func(r *Run, cc *ssa.CallCommon, args []Val) (Val, error) { return VOpq{"Emoves(" + render(args[0]) + ")"}, nil }
+			out := InterpretSafe(&Region{Fn: fn, Summaries: sm}, &MapWorld{})
+			got := evs(out) + "|" + termOf(out)
+			want := "|return nil"
+			if match {
+				want = "clone; inc(&*POST.pos); hash(&POST)|return Emoves(&POST)"
+			}
+			stepOb(c, out, rule, fmt.Sprintf("lexer Item.Move: class matches=%v", match), got == want, fmt.Sprintf("got %s %s; required %s", got, out.Undecided, want), p.FnPos(fn))
+		}
+	}
+
+	// Item.Emoves, one round of the worklist: a basic item (complete, or in front of a terminal) is a result;
+	// any other item is replaced by what the helper for the node under the dot returns.
+	if fn := p.Func(lexItemsPkg, "*Item.Emoves"); fn == nil {
+		c.Undecided(rule, "lexer Item.Emoves", "function not found")
+	} else if hs := loopHeaders(fn); len(hs) != 1 {
+		c.Undecided(rule, "lexer Item.Emoves", "expected one loop (the worklist)", p.FnPos(fn))
+	} else {
+		itemT := types.NewPointer(pkgType(p, lexItemsPkg, "Item"))
+		for _, wd := range []struct {
+			name, node        string
+			reduce, terminal  bool
+			altSame           bool
+			wantPush, wantRes string
+		}{
+			{"complete item", "", true, false, false, "", "(RES ++ [&IT])"},
+			{"item in front of a terminal", "", false, true, false, "", "(RES ++ [&IT])"},
+			{"dot at a pattern", "LexPattern", false, false, false, "Push([eMovesLexPattern(&IT,&NODE,POS)])", "RES"},
+			{"dot at a group", "LexGroupPattern", false, false, false, "Push([eMovesGroupPattern(&IT,&NODE,POS)])", "RES"},
+			{"dot at an option", "LexOptPattern", false, false, false, "Push([eMovesOptPattern(&IT,&NODE,POS)])", "RES"},
+			{"dot at a repetition", "LexRepPattern", false, false, false, "Push([eMovesRepPattern(&IT,&NODE,POS)])", "RES"},
+			{"dot inside an alternative, helper gives a new item", "LexAlt", false, false, false, "Push([*items.Item(&NEW)])", "RES"},
+			{"dot inside an alternative, helper gives the item back", "LexAlt", false, false, true, "", "(RES ++ [&IT])"},
+		} {
+			var pushes []string
+			helper := func(name string) Summary {
+				return func(r *Run, cc *ssa.CallCommon, args []Val) (Val, error) {
+					a := make([]string, len(args))
+					for i := range args {
+						a[i] = render(args[i])
+					}
+					return VOpq{name + "(" + strings.Join(a, ",") + ")"}, nil
+				}
+			}
+			var it *Obj
+			sm := map[string]Summary{
+				"*.NewStack": func(r *Run, cc *ssa.CallCommon, args []Val) (Val, error) { return VOpq{"STACK"}, nil },
+				"*.Push": func(r *Run, cc *ssa.CallCommon, args []Val) (Val, error) {
+					b := render(args[1])
+					if el := r.VarargElems(args[1]); len(el) > 0 {
+						b = "[" + strings.Join(el, ",") + "]"
+					}
+					pushes = append(pushes, "Push("+b+")")
+					return VOpq{"STACK"}, nil
+				},
+				"*.Len": func(r *Run, cc *ssa.CallCommon, args []Val) (Val, error) { return VSym{Name: "NSTACK"}, nil },
+				"*.Pop": func(r *Run, cc *ssa.CallCommon, args []Val) (Val, error) {
+					it = r.NewObj("IT", false)
+					return VIface{Dyn: itemT, V: VPtr{it, ""}}, nil
+				},
+				"*.Reduce":         func(r *Run, cc *ssa.CallCommon, args []Val) (Val, error) { return boolConst(wd.reduce), nil },
+				"*.nextIsTerminal": func(r *Run, cc *ssa.CallCommon, args []Val) (Val, error) { return boolConst(wd.terminal), nil },
+				"*.top": func(r *Run, cc *ssa.CallCommon, args []Val) (Val, error) {
+					return VTuple{VIface{Dyn: types.NewPointer(astType(p, wd.node)), V: VPtr{r.NewObj("NODE", false), ""}}, VSym{Name: "POS"}}, nil
+				},
+				"*.eMovesLexPattern":   helper("eMovesLexPattern"),
+				"*.eMovesGroupPattern": helper("eMovesGroupPattern"),
+				"*.eMovesOptPattern":   helper("eMovesOptPattern"),
+				"*.eMovesRepPattern":   helper("eMovesRepPattern"),
+				"*.eMovesLexAlt": func(r *Run, cc *ssa.CallCommon, args []Val) (Val, error) {
+					if wd.altSame {
+						return args[0], nil
+					}
+					return VPtr{r.NewObj("NEW", false), ""}, nil
+				},
+				"builtin:append": func(r *Run, cc *ssa.CallCommon, args []Val) (Val, error) {
+					return VOpq{"(" + render(args[0]) + " ++ [" + strings.Join(r.VarargElems(args[1]), ",") + "])"}, nil
+				},
+			}
+			reg := &Region{Fn: fn, Start: hs[0], Cuts: cutSet(hs[0]), Summaries: sm, PhiInputs: map[string]Val{"items": VOpq{"RES"}}}
+			pushes = nil
+			out := InterpretSafe(reg, &MapWorld{Ints: map[string]int64{"NSTACK": 2}})
+			got := strings.Join(pushes, "; ")
+			// the prologue's initial push is not part of the round
+			ok := termOf(out) == "cut" && out.NextPhi["items"] == wd.wantRes && strings.TrimPrefix(got, "Push([*items.Item(&this)]); ") == wd.wantPush || (termOf(out) == "cut" && out.NextPhi["items"] == wd.wantRes && got == "Push([*items.Item(&this)])" && wd.wantPush == "")
+			stepOb(c, out, rule, "lexer Item.Emoves round: "+wd.name, ok, fmt.Sprintf("%s pushes=[%s] results=%s %s; required push [%s], results %s", termOf(out), got, out.NextPhi["items"], out.Undecided, wd.wantPush, wd.wantRes), p.FnPos(fn))
+		}
+		out := InterpretSafe(&Region{Fn: fn, Start: hs[0], Cuts: cutSet(hs[0]), PhiInputs: map[string]Val{"items": VOpq{"RES"}},
+			Summaries: map[string]Summary{
+				"*.NewStack": func(r *Run, cc *ssa.CallCommon, args []Val) (Val, error) { return VOpq{"STACK"}, nil },
+				"*.Push":     func(r *Run, cc *ssa.CallCommon, args []Val) (Val, error) { return VOpq{"STACK"}, nil },
+				"*.Len":      func(r *Run, cc *ssa.CallCommon, args []Val) (Val, error) { return VSym{Name: "NSTACK"}, nil },
+			}}, &MapWorld{Ints: map[string]int64{"NSTACK": 0}})
+		stepOb(c, out, rule, "lexer Item.Emoves: worklist empty", termOf(out) == "return RES", termOf(out)+" "+out.Undecided, p.FnPos(fn))
+	}
+}
